@@ -443,6 +443,10 @@ def alt_tag(world: World, alt) -> str:
         return world.class_id(alt[1])
     if isinstance(alt, tuple) and alt[0] == "symlist":
         return smt.sint(ALT_TAGS["list"])
+    if isinstance(alt, tuple) and alt[0] == "tuple_of":
+        import zlib
+
+        return smt.sint(1000 + zlib.crc32(repr(alt).encode()) % 100000)
     return smt.sint(ALT_TAGS[alt])
 
 
@@ -469,6 +473,9 @@ def make_alt(ctx: Ctx, name: str, alt) -> V:
         return VObj(alt[1], ctx.declare(f"{name}.oid", "Int"))
     if isinstance(alt, tuple) and alt[0] == "symlist":
         return VSymList(name, [("obj", alt[1])] if isinstance(alt[1], str) else list(alt[1]))
+    if isinstance(alt, tuple) and alt[0] == "tuple_of":
+        # a real tuple with symbolic components: ("tuple_of", [alt, ...])
+        return VTuple([make_alt(ctx, f"{name}.{i}", a) for i, a in enumerate(alt[1])])
     raise Unsupported(f"alt {alt}")
 
 
